@@ -18,7 +18,13 @@ History operations (mirroring coq/C07/World.v:wop):
                               routed through the real Supervisor.get_process_map()
   ('exit', p)                 the child exits
   ('reap', p)                 real Supervisor.reap(once=True) with waitpid -> (pid, 0)
+  ('reapfault', p, chan, 'EIO'|'EBADF')  the same, but read(2) on p's `chan` pipe fails during the drain
+  ('reopen',)                 SIGUSR2 handling: group.reopenlogs() for every group
+  ('clear', p)                clearProcessLogs: Subprocess.removelogs()
   ('open',) / ('close', fd)   unrelated descriptors
+
+A process configuration is (redirect_stderr, stdout_capture_maxbytes, stderr_capture_maxbytes,
+stdout_events_enabled, stderr_events_enabled[, no log files[, (logfile_maxbytes, logfile_backups)]]).
 """
 import errno
 import os
@@ -50,6 +56,7 @@ class Kernel(object):
         self.wait_queue = []
         self.last_created = []
         self.spawning = None
+        self.read_fault = {}      # descriptor -> errno raised by read(2)
 
     def lowest(self):
         n = 0
@@ -85,6 +92,9 @@ class Kernel(object):
         ent = self.fds.get(fd)
         if ent is None or ent[0] != 'r':
             raise OSError(errno.EBADF, 'Bad file descriptor')
+        if fd in self.read_fault:
+            e = self.read_fault[fd]
+            raise OSError(e, os.strerror(e))
         p = self.pipes[ent[1]]
         if not p['buf']:
             if p['writer_alive']:
@@ -193,20 +203,32 @@ class Seam(object):
         self.strip = strip
         self.paths = []
         pconfigs = []
-        for i, (redirect, cap_out, cap_err, ev_out, ev_err) in enumerate(cfgs):
+        self.nolog = []
+        self.rot = []
+        self.cleared = [False] * len(cfgs)
+        self.header_errors = []
+        for i, cfg in enumerate(cfgs):
+            redirect, cap_out, cap_err, ev_out, ev_err = cfg[:5]
+            nolog = bool(cfg[5]) if len(cfg) > 5 else False
+            rot = cfg[6] if len(cfg) > 6 and cfg[6] else (0, 0)
+            self.nolog.append(nolog)
+            self.rot.append(rot)
             out = os.path.join(self.workdir, 'p%d.out' % i)
             err = os.path.join(self.workdir, 'p%d.err' % i)
             for f in (out, err):
-                if os.path.exists(f):
-                    os.unlink(f)
+                for suffix in [''] + ['.%d' % k for k in range(1, 12)]:
+                    if os.path.exists(f + suffix):
+                        os.unlink(f + suffix)
             self.paths.append((out, err))
+            if nolog:
+                out = err = None
             pconfigs.append(ProcessConfig(
                 opts, name='proc%d' % i, uid=None, command='/bin/sh', directory=None, umask=None,
                 priority=999, autostart=False, autorestart=False, startsecs=0, startretries=3,
                 stdout_logfile=out, stdout_capture_maxbytes=cap_out, stdout_events_enabled=ev_out,
-                stdout_syslog=False, stdout_logfile_backups=0, stdout_logfile_maxbytes=0,
+                stdout_syslog=False, stdout_logfile_backups=rot[1], stdout_logfile_maxbytes=rot[0],
                 stderr_logfile=(None if redirect else err), stderr_capture_maxbytes=cap_err,
-                stderr_logfile_backups=0, stderr_logfile_maxbytes=0, stderr_events_enabled=ev_err,
+                stderr_logfile_backups=rot[1], stderr_logfile_maxbytes=rot[0], stderr_events_enabled=ev_err,
                 stderr_syslog=False, stopsignal=15, stopwaitsecs=10, stopasgroup=False, killasgroup=False,
                 exitcodes=[0], redirect_stderr=redirect, environment=None, serverurl=None))
         # two groups, insertion order = process index order
@@ -233,10 +255,24 @@ class Seam(object):
                 return i
         raise HarnessFailure('event for an unknown process object')
 
+    def _check_header(self, e):
+        # the event names the writer: its process object, the pid of the child that wrote the bytes
+        # (still set while finish() flushes), and the channel of the dispatcher
+        if not e.pid or e.pid != e.process.pid or e.process.config.name != 'proc%d' % self._index(e.process):
+            self.header_errors.append('event with pid %r for %s whose current pid is %r'
+                                      % (e.pid, e.process.config.name, e.process.pid))
+        payload = e.payload()
+        want = 'processname:%s groupname:%s pid:%s channel:%s\n' % (
+            e.process.config.name, e.process.group.config.name, e.pid, e.channel)
+        if not payload.startswith(want):
+            self.header_errors.append('event payload header %r, expected %r' % (payload[:80], want))
+
     def _on_plog(self, e):
+        self._check_header(e)
         self.events.append((0, self._index(e.process), e.pid, CH_CODE[e.channel], bytes(e.data)))
 
     def _on_comm(self, e):
+        self._check_header(e)
         self.events.append((1, self._index(e.process), e.pid, CH_CODE[e.channel], bytes(e.data)))
 
     # ------------------------------------------------------------ operations
@@ -310,14 +346,37 @@ class Seam(object):
                 ch['alive'] = False
                 for c in ('stdout', 'stderr'):
                     k.pipes[ch[c]]['writer_alive'] = False
-        elif kind == 'reap':
+        elif kind in ('reap', 'reapfault'):
             p = o[1]
             proc = self.procs[p]
             ch = self.child[p]
             if proc.pid and ch and not ch['alive']:
+                if kind == 'reapfault':
+                    fd, d = self._disp_fd(proc, o[2])
+                    if fd is not None and d.readable():
+                        k.read_fault = {fd: getattr(errno, o[3])}
+                        # what that pipe still holds can legitimately not be logged
+                        ent = k.fds.get(fd)
+                        lost = len(k.pipes[ent[1]]['buf']) if ent and ent[0] == 'r' else 0
+                        eff = 'stdout' if self.cfgs[p][0] else o[2]
+                        if lost:
+                            self.written[p][-1][eff] = self.written[p][-1][eff][:-lost]
+                            k.pipes[ent[1]]['buf'] = bytearray()
                 k.wait_queue = [(proc.pid, 0)]
-                self.sup.reap(once=True)
+                try:
+                    self.sup.reap(once=True)
+                finally:
+                    k.read_fault = {}
                 self.child[p] = None
+        elif kind == 'reopen':
+            # supervisord.handle_signal(SIGUSR2): for group in self.process_groups.values(): group.reopenlogs()
+            for g in self.sup.process_groups.values():
+                g.reopenlogs()
+        elif kind == 'clear':
+            p = o[1]
+            if self.procs[p].dispatchers:
+                self.cleared[p] = True
+            self.procs[p].removelogs()
         elif kind == 'open':
             k.open_other()
         elif kind == 'close':
@@ -378,6 +437,27 @@ class Seam(object):
             res.append(row)
         return res
 
+    def full_logs(self):
+        """backups (oldest first) + current file, per process and channel"""
+        res = []
+        for i in range(len(self.procs)):
+            row = []
+            for ci in range(2):
+                data = b''
+                for k in range(11, 0, -1):
+                    f = self.paths[i][ci] + '.%d' % k
+                    if os.path.exists(f):
+                        if k > self.rot[i][1]:
+                            raise HarnessFailure('backup %s beyond the configured number of backups' % f)
+                        with open(f, 'rb') as fh:
+                            data += fh.read()
+                if os.path.exists(self.paths[i][ci]):
+                    with open(self.paths[i][ci], 'rb') as fh:
+                        data += fh.read()
+                row.append(data)
+            res.append(row)
+        return res
+
     def final_ser(self):
         out = []
         for row in self.logs():
@@ -396,8 +476,11 @@ class Seam(object):
             self.op(o)
             trace += self.step_ser()
         trace += self.final_ser()
+        if self.header_errors:
+            raise HarnessFailure(self.header_errors[0])
         info = {'logs': self.logs(), 'events': list(self.events), 'written': self.written,
-                'running': [bool(p.pid) for p in self.procs]}
+                'running': [bool(p.pid) for p in self.procs], 'cleared': list(self.cleared),
+                'full_logs': self.full_logs(), 'nolog': list(self.nolog), 'rot': list(self.rot)}
         # drop the process objects so that their log files are closed
         for p in self.procs:
             p.dispatchers = {}
@@ -426,15 +509,18 @@ def strip_ref(s):
 
 
 def judge(cfgs, strip, info, begin, end):
-    """C07 on a finished history in which every child has been reaped: each log
-    is the concatenation over incarnations of the stream minus capture sections
-    (through stripEscapes of the whole when strip_ansi).  -> list of (p, chan, kind)
-    where kind = 'ansi-split' (inside the known finding's signature) or 'wrong'."""
+    """C07 on a finished history in which every child has been reaped: each log (rotation backups
+    included, oldest first) is the concatenation over incarnations of the stream minus capture
+    sections (through stripEscapes of the whole when strip_ansi); after clearProcessLogs or when
+    rotation has legitimately dropped old backups, a trailing part of it.  -> list of (p, chan, kind)
+    where kind = 'ansi-split' (inside the known finding's signature) or a description of what is wrong."""
     import c08_disp
     bad = []
-    for p, (redirect, cap_out, cap_err, ev_out, ev_err) in enumerate(cfgs):
+    for p, cfg in enumerate(cfgs):
+        redirect, cap_out, cap_err, ev_out, ev_err = cfg[:5]
         if info['running'][p]:
             continue
+        maxbytes, backups = info['rot'][p]
         for ci, (chan, cap, ev) in enumerate((('stdout', cap_out, ev_out), ('stderr', cap_err, ev_err))):
             want = b''
             want_nostrip = b''
@@ -442,18 +528,32 @@ def judge(cfgs, strip, info, begin, end):
                 logged, secs, _open = c08_disp.split_ref(inc[chan], begin, end, cap)
                 want_nostrip += logged
                 want += strip_ref(logged) if strip else logged
-            got = info['logs'][p][ci]
-            if redirect and chan == 'stderr':
-                want = b''
-            if got != want:
-                if strip and b'\x1b' in want_nostrip:
+            got = info['full_logs'][p][ci]
+            if (redirect and chan == 'stderr') or info['nolog'][p]:
+                if got:
+                    bad.append((p, chan, 'bytes in a log file that is not configured'))
+                want = got = b''
+            ok = got == want
+            if not ok and want.endswith(got):
+                if info['cleared'][p]:
+                    ok = True
+                elif maxbytes and len(want) >= (backups + 1) * maxbytes and len(got) >= backups * maxbytes:
+                    ok = True      # rotation dropped the oldest backups, as configured
+            if not ok:
+                if strip and b'\x1b' in want_nostrip and not maxbytes:
                     bad.append((p, chan, 'ansi-split'))
+                elif want.endswith(got):
+                    bad.append((p, chan, 'wrong: the beginning of the output is missing from the log'))
                 else:
-                    bad.append((p, chan, 'wrong'))
-            if ev and not cap:
+                    bad.append((p, chan, 'wrong: log (backups + current file) is not the output in order'))
+            if ev and not cap and not info['cleared'][p] and not info['nolog'][p] and not maxbytes:
                 # PROCESS_LOG events of this channel carry the same bytes, with the writer's identity
                 data = b''.join(d for (k, pp, pid, ch, d) in info['events'] if k == 0 and pp == p and ch == CH_CODE[chan])
                 if data != got:
+                    bad.append((p, chan, 'plog-differs'))
+            if ev and not cap and info['nolog'][p]:
+                data = b''.join(d for (k, pp, pid, ch, d) in info['events'] if k == 0 and pp == p and ch == CH_CODE[chan])
+                if data != (strip_ref(want_nostrip) if strip else want_nostrip) and not (strip and b'\x1b' in want_nostrip):
                     bad.append((p, chan, 'plog-differs'))
     return bad
 
@@ -484,12 +584,12 @@ def history_job(job):
 
 
 def finish_job(job):
-    """C08 through the real Subprocess.finish(): job = (stream, cut, capmax).  The child writes
+    """C08 through the real Subprocess.finish(): job = (stream, cut, capmax, no log file).  The child writes
     stream[:cut], the main loop reads it; then it writes stream[cut:] and exits; the rest is
     still in the pipe when the child is reaped (drain + final flush inside finish()).
     -> (log bytes, [PROCESS_COMMUNICATION data], failure text or None)"""
-    s, cut, cap = job
-    cfgs = [(False, cap, 0, False, False)]
+    s, cut, cap, nolog = job
+    cfgs = [(False, cap, 0, False, False, nolog)]
     ops = [('spawn', 0, 'ok')]
     if cut > 0:
         ops += [('write', 0, 'stdout', s[:cut]), ('read', 0, 'stdout', 3000)]
